@@ -300,8 +300,9 @@ theorem ula_linklocal_private6 (n : Nat) (sc : Option Text)
   · exact allIn_sound privOnly v6Table _ _ n (by decide +kernel) a b
   · exact allIn_sound privOnly v6Table _ _ n (by decide +kernel) a b
 
-/-- 2400::/6 … 3ffe:ffff… — here 2002:: up to fbff:ffff:… (everything between the 2001:db8::/32
-    documentation block and fc00::/7) is global -/
+/-- everything between the end of the 2001:db8::/32 documentation block and fc00::/7, i.e.
+    2001:db9:: … fbff:ffff:ffff:ffff:ffff:ffff:ffff:ffff (this contains 2002::/16 and all of 2400::/6 … 3ffe::),
+    is global -/
 theorem public_sample_global6 (n : Nat) (sc : Option Text)
     (h1 : 42540766490510755371168322545197776896 ≤ n)
     (h2 : n ≤ 334965454937798799971759379190646833151) :
